@@ -988,7 +988,25 @@ func overShards(g *iterGroup) bool {
 	for v != nil && (v.Kind == pw.KAddr || v.Kind == pw.KSlice || v.Kind == pw.KConv) {
 		v = v.Src
 	}
-	return v != nil && v.Kind == pw.KField && v.Field != nil && fname(v.Field) == "hashedBuckets"
+	if v != nil && v.Kind == pw.KField && v.Field != nil && fname(v.Field) == "hashedBuckets" {
+		return true
+	}
+	// a counting loop `for i := 0; i < len(arr); i++` (len of an array is a constant: the loop header does not mention the array):
+	// it is a loop over the shards when its body addresses arr[i] and the loop is not a range over something else
+	if g.begin.Recv == nil && g.begin.Note != "Range" && !g.overData {
+		if fs, isFor := g.begin.Loop.(*ast.ForStmt); isFor {
+			if be, ok := ast.Unparen(fs.Cond).(*ast.BinaryExpr); ok && (be.Op == token.LSS || be.Op == token.NEQ) {
+				if call, ok := ast.Unparen(be.Y).(*ast.CallExpr); ok && len(call.Args) == 1 {
+					if id, ok := ast.Unparen(call.Fun).(*ast.Ident); ok && id.Name == "len" {
+						if sel, ok := ast.Unparen(call.Args[0]).(*ast.SelectorExpr); ok && sel.Sel.Name == actualField("shardedMap", "hashedBuckets") {
+							return true
+						}
+					}
+				}
+			}
+		}
+	}
+	return false
 }
 
 // shardCoverage: a whole-collection operation of a sharded backend must examine the map of every shard it steps over (scan it, take
